@@ -134,23 +134,32 @@ type scenario struct {
 	Stderr bool    `json:"stderr,omitempty"`
 	Chunks [][]seg `json:"chunks,omitempty"`
 	// children
-	Ops        []op     `json:"ops,omitempty"`
-	Exit       int      `json:"exit,omitempty"`
-	Signal     int      `json:"signal,omitempty"` // die by this signal after the writes
-	Env        []string `json:"env,omitempty"`    // additional environment ("K=V")
-	Msgs       bool     `json:"msgs,omitempty"`   // custom start/success/failure messages (false: the defaults)
-	Sh         string   `json:"sh,omitempty"`     // `sh -c` script instead of the self child ...
-	ShOut      []seg    `json:"sh_out,omitempty"` // ... and the bytes it writes
-	ShErr      []seg    `json:"sh_err,omitempty"`
-	Cancel     string   `json:"cancel,omitempty"`       // ctx | deadline | method | pre: interrupt the child (it hangs after its writes)
-	NotFound   string   `json:"notfound,omitempty"`     // run this (non-existent) command instead
-	LogDelayUs int      `json:"log_delay_us,omitempty"` // the recording logger takes this long for every message
-	StallAt    int      `json:"stall_at,omitempty"`     // ... and stalls once, at its n-th message (1-based),
-	StallMs    int      `json:"stall_ms,omitempty"`     // for this long
-	ID         string   `json:"id,omitempty"`           // makes the custom messages unique to the case
-	Entry      string   `json:"entry,omitempty"`        // public entry point of the package to go through (see entryPoints); "" = by Func / Env
-	As         string   `json:"as,omitempty"`           // command translator of the ...As... entry points: "" = command.Me(), "env" = NewCommandAsDifferentUser("env")
-	Func       bool     `json:"func,omitempty"`         // use the package-level functions (Execute / Output) instead of New + (*Subprocess).Execute / OutputWithEnvironment
+	Ops        []op      `json:"ops,omitempty"`
+	Exit       int       `json:"exit,omitempty"`
+	Signal     int       `json:"signal,omitempty"` // die by this signal after the writes
+	Env        []string  `json:"env,omitempty"`    // additional environment ("K=V")
+	Msgs       bool      `json:"msgs,omitempty"`   // custom start/success/failure messages (false: the defaults)
+	Sh         string    `json:"sh,omitempty"`     // `sh -c` script instead of the self child ...
+	ShOut      []seg     `json:"sh_out,omitempty"` // ... and the bytes it writes
+	ShErr      []seg     `json:"sh_err,omitempty"`
+	Cancel     string    `json:"cancel,omitempty"`       // ctx | deadline | method | pre: interrupt the child (it hangs after its writes)
+	NotFound   string    `json:"notfound,omitempty"`     // run this (non-existent) command instead
+	LogDelayUs int       `json:"log_delay_us,omitempty"` // the recording logger takes this long for every message
+	StallAt    int       `json:"stall_at,omitempty"`     // ... and stalls once, at its n-th message (1-based),
+	StallMs    int       `json:"stall_ms,omitempty"`     // for this long
+	Runs       []runSpec `json:"runs,omitempty"`         // kind "reuse": the same Subprocess object run several times back to back
+	ID         string    `json:"id,omitempty"`           // makes the custom messages unique to the case
+	Entry      string    `json:"entry,omitempty"`        // public entry point of the package to go through (see entryPoints); "" = by Func / Env
+	As         string    `json:"as,omitempty"`           // command translator of the ...As... entry points: "" = command.Me(), "env" = NewCommandAsDifferentUser("env")
+	Func       bool      `json:"func,omitempty"`         // use the package-level functions (Execute / Output) instead of New + (*Subprocess).Execute / OutputWithEnvironment
+}
+
+// runSpec is one run of a reuse history.
+type runSpec struct {
+	Step  string `json:"step"`            // execute: (*Subprocess).Execute | startstop: Start, wait until the child has written everything, Stop
+	Setup bool   `json:"setup,omitempty"` // before the run, Setup() the object again with messages unique to this run
+	Ops   []op   `json:"ops,omitempty"`
+	Exit  int    `json:"exit,omitempty"`
 }
 
 // childScript is what the self child reads.
@@ -1464,6 +1473,199 @@ func randomChild(r *h.Run) scenario {
 
 // ---------------------------------------------------------------------------------------------------------------------
 
+// ---------------------------------------------------------------------------------------------------------------------
+// reuse histories: one Subprocess object, several runs back to back; the property holds PER RUN
+
+// runScenario: run i of a history as an ordinary scenario (what the usual oracle and the Coq case are evaluated on).
+func (sc scenario) runScenario(i int, id string) scenario {
+	return scenario{Kind: "exec", Msgs: sc.Msgs, ID: id, Entry: "New", Ops: sc.Runs[i].Ops, Exit: sc.Runs[i].Exit}
+}
+
+type runResult struct {
+	sc scenario
+	o  observation
+	vs []verdict
+}
+
+func runReuse(sc scenario) []runResult {
+	r := &rec{}
+	script := tmpName("script")
+	ready := tmpName("ready")
+	write := func(rs runSpec) {
+		cs := childScript{Ops: rs.Ops, Exit: rs.Exit}
+		if rs.Step == "startstop" {
+			cs.Ready, cs.HangMs = ready, 20000
+		}
+		bs, _ := json.Marshal(cs)
+		_ = os.WriteFile(script, bs, 0o600)
+		_ = os.Remove(ready)
+	}
+	msgs := func(id string) (string, string, string) {
+		if !sc.Msgs {
+			return "", "", ""
+		}
+		x := scenario{ID: id}
+		return x.mStart(), x.mOK(), x.mFail()
+	}
+	ctx := context.Background()
+	id := sc.ID + "-r0"
+	var p *subprocess.Subprocess
+	var out []runResult
+	for i, rs := range sc.Runs {
+		write(rs)
+		var err error
+		if i == 0 {
+			a, b, c := msgs(id)
+			p, err = subprocess.New(ctx, r, a, b, c, selfPath, "c18-child", script)
+		} else if rs.Setup {
+			id = fmt.Sprintf("%s-r%d", sc.ID, i)
+			a, b, c := msgs(id)
+			err = p.Setup(ctx, r, a, b, c, selfPath, "c18-child", script)
+		}
+		rsc := sc.runScenario(i, id)
+		var o observation
+		mark := len(r.snapshot())
+		if err != nil {
+			o.ErrKind, o.ErrText = "setup:"+errKind(err), err.Error()
+			out = append(out, runResult{sc: rsc, o: o, vs: []verdict{{"setup-failed", "the subprocess could not be set up: " + err.Error()}}})
+			return out
+		}
+		res := runResult{sc: rsc}
+		if rs.Step == "startstop" {
+			err = p.Start()
+			okReady := err == nil && waitFor(ready, 15*time.Second)
+			time.Sleep(150 * time.Millisecond) // let the copying goroutines deliver what is in the pipes
+			stopErr := p.Stop()
+			o.Log = r.snapshot()[mark:]
+			o.ErrKind = errKind(err)
+			// only the lines are judged here (the property is about Execute / Output)
+			if err != nil || stopErr != nil {
+				res.vs = append(res.vs, verdict{"start-stop-error", fmt.Sprintf("Start / Stop returned an error: %v / %v", err, stopErr)})
+			} else if okReady {
+				var gotOut, gotErr []string
+				for _, e := range o.Log {
+					if rsc.isFramework(e) || strings.HasPrefix(e.Msg, "Started process [") || strings.HasPrefix(e.Msg, "Stopping process [") {
+						continue
+					}
+					if e.Ch == "o" {
+						gotOut = append(gotOut, e.Msg)
+					} else {
+						gotErr = append(gotErr, e.Msg)
+					}
+				}
+				wo, we := rsc.expectedBytes()
+				if v := compareLines("stdout", gotOut, nonEmptyLines(wo)); v != nil {
+					res.vs = append(res.vs, *v)
+				}
+				if v := compareLines("stderr", gotErr, nonEmptyLines(we)); v != nil {
+					res.vs = append(res.vs, *v)
+				}
+			}
+			res.sc.Kind = "startstop" // no Coq case
+		} else {
+			err = p.Execute()
+			o.ErrKind = errKind(err)
+			if err != nil {
+				o.ErrText = err.Error()
+			}
+			o.Log = r.snapshot()[mark:]
+			if i == len(sc.Runs)-1 {
+				time.Sleep(settleDelay)
+				if all := r.snapshot(); len(all) > mark+len(o.Log) {
+					o.Late = all[mark+len(o.Log):]
+				}
+			}
+			res.vs = oracleChild(rsc, o)
+		}
+		res.o = o
+		out = append(out, res)
+	}
+	return out
+}
+
+func failed(rr []runResult) bool {
+	for _, x := range rr {
+		if len(x.vs) > 0 {
+			return true
+		}
+	}
+	return false
+}
+
+func ex(exit int, text string) runSpec {
+	return runSpec{Step: "execute", Exit: exit, Ops: []op{w(1, text+" out\n"+text+" unterminated", 0), w(2, text+" err\n", 0)}}
+}
+
+func ss(text string) runSpec {
+	return runSpec{Step: "startstop", Ops: []op{w(1, text+" out\n", 0), w(2, text+" err", 0)}}
+}
+
+func reuseHistories(r *h.Run) []scenario {
+	mk := func(msgs bool, runs ...runSpec) scenario {
+		for i := range runs { // the child output is unique to the run
+			for j := range runs[i].Ops {
+				runs[i].Ops[j].D = append([]seg{{T: fmt.Sprintf("[run %d] ", i)}}, runs[i].Ops[j].D...)
+			}
+		}
+		return scenario{Kind: "reuse", Msgs: msgs, Runs: runs}
+	}
+	setup := func(rs runSpec) runSpec { rs.Setup = true; return rs }
+	scs := []scenario{
+		mk(true, ex(0, "a"), ex(0, "b")),
+		mk(true, ex(0, "a"), ex(0, "b"), ex(0, "c"), ex(0, "d"), ex(0, "e"), ex(0, "f")),
+		mk(false, ex(0, "a"), ex(0, "b"), ex(0, "c"), ex(0, "d")),
+		mk(true, ex(0, "a"), ex(3, "fails"), ex(0, "c"), ex(0, "d")),
+		mk(true, ex(0, "a"), setup(ex(0, "b")), ex(0, "c"), setup(ex(2, "fails")), ex(0, "e")),
+		mk(true, ss("s1"), ex(0, "b"), ss("s2"), ex(0, "d"), ex(0, "e")),
+		mk(true, ex(0, "a"), ss("s1"), ss("s2"), ex(0, "d")),
+	}
+	for n := 0; n < r.N(8, 60); n++ {
+		var runs []runSpec
+		for i, k := 0, 2+r.Rng.Intn(5); i < k; i++ {
+			var rs runSpec
+			switch x := r.Rng.Intn(10); {
+			case x < 6:
+				rs = ex(0, fmt.Sprintf("h%d", n))
+			case x < 8:
+				rs = ex(1+r.Rng.Intn(255), fmt.Sprintf("h%d fails", n))
+			default:
+				rs = ss(fmt.Sprintf("h%d", n))
+			}
+			if i > 0 && r.Rng.Intn(5) == 0 {
+				rs.Setup = true
+			}
+			runs = append(runs, rs)
+		}
+		scs = append(scs, mk(r.Rng.Intn(4) != 0, runs...))
+	}
+	return scs
+}
+
+// judgeReuse runs a history; a failing history is run again (the windows are timing dependent, both ways): it is
+// reported when at least 2 of up to 5 attempts fail.
+func judgeReuse(sc scenario) (last []runResult, failing int, attempts int) {
+	for attempts < 5 {
+		attempts++
+		rr := runReuse(sc)
+		if failed(rr) {
+			failing++
+			last = rr
+		} else if last == nil {
+			last = rr
+		}
+		if attempts == 1 && failing == 0 {
+			break // nothing seen: one attempt is all a passing history gets
+		}
+		if failing >= 2 {
+			break
+		}
+	}
+	if failing < 2 && failed(last) {
+		last = nil // a single failing attempt out of 5: not reported (noted by the caller)
+	}
+	return
+}
+
 func key(sc scenario) string {
 	sc.ID = ""
 	bs, _ := json.Marshal(sc)
@@ -1522,9 +1724,15 @@ func main() {
 
 	var scs []scenario
 	var one scenario
+	var reuse []scenario
 	if _, ok := r.ReplayObject(&one); ok {
-		scs = []scenario{one}
+		if one.Kind == "reuse" {
+			reuse = []scenario{one}
+		} else {
+			scs = []scenario{one}
+		}
 	} else {
+		reuse = reuseHistories(r)
 		scs = append(scs, deterministicAdapter()...)
 		scs = append(scs, deterministicChildren(r)...)
 		scs = append(scs, slowLoggers(r)...)
@@ -1537,6 +1745,24 @@ func main() {
 		}
 	}
 
+	// the reuse histories run beside everything else, each in its own goroutine
+	type reuseOut struct {
+		rr                []runResult
+		failing, attempts int
+	}
+	reuseRes := make([]reuseOut, len(reuse))
+	var rwg sync.WaitGroup
+	for i := range reuse {
+		if reuse[i].ID == "" {
+			reuse[i].ID = fmt.Sprintf("%d-h%d", r.Seed, i)
+		}
+		rwg.Add(1)
+		go func(i int) {
+			defer rwg.Done()
+			rr, f, a := judgeReuse(reuse[i])
+			reuseRes[i] = reuseOut{rr, f, a}
+		}(i)
+	}
 	for i := range scs {
 		if scs[i].Kind == "adapter" {
 			continue
@@ -1680,6 +1906,26 @@ func main() {
 			r.Case(term, map[string]any{"scenario": sc, "error": res.o.ErrKind})
 		} else {
 			r.Count("too large for a Coq case (oracle only)")
+		}
+	}
+	rwg.Wait()
+	for i, sc := range reuse {
+		res := reuseRes[i]
+		r.Count("kind:reuse history")
+		r.Count(fmt.Sprintf("reuse history of %d runs", len(sc.Runs)))
+		r.Distinct(key(sc))
+		if res.failing == 1 && res.attempts > 1 {
+			r.Count("reuse history: 1 failing attempt of 5 (not reported)")
+		}
+		for k, x := range res.rr {
+			r.Eval()
+			r.Count("reuse step:" + sc.Runs[k].Step)
+			for _, v := range x.vs {
+				r.Fail("reuse:"+v.sig, fmt.Sprintf("run %d of %d on the same Subprocess object (%d of %d attempts of this history failed): %s", k+1, len(sc.Runs), res.failing, res.attempts, v.what), sc)
+			}
+			if x.sc.Kind == "exec" && !strings.HasPrefix(x.o.ErrKind, "setup:") {
+				r.Case(x.sc.coqCase(x.o), map[string]any{"scenario": sc, "run": k, "error": x.o.ErrKind})
+			}
 		}
 	}
 	r.Note("children are this binary re-executed with a write script (one write(2) per op, optional pauses); death by signal through `sh -c '...; kill -N $$'`; interrupted children have written everything and hang before the run is cancelled (re-run up to 3 times with longer waits before a failure is reported)")
